@@ -121,6 +121,8 @@ def correspond(ctx, model):
         ctx.disagree("shape.slice_length", *bad[i], oracle=oracle)
     ctx.count("slice_length disagreements", len(bad))
     # malformed stream: zero step
+    _indexed_shape_part(ctx, model)
+    _collapse_part(ctx, model)
     _part2(ctx)
     for n in range(0, 4):
         sl = slice(None, None, 0)
@@ -134,6 +136,141 @@ def correspond(ctx, model):
         ctx.count("malformed:step0")
         if not (m == "value" and impl[0] == "err"):
             ctx.disagree("shape.slice_length.reject", {"n": n, "start": None, "stop": None, "step": 0}, list(impl), m)
+
+
+def _idx_json(ix):
+    if ix is None:
+        return {"k": "none"}
+    if ix is Ellipsis:
+        return {"k": "ellipsis"}
+    if isinstance(ix, slice):
+        return {"k": "slice", "start": ix.start, "stop": ix.stop, "step": ix.step}
+    return {"k": "int", "i": int(ix)}
+
+
+def _indexed_shape_part(ctx, model):
+    """indexed_shape on tuples of ints / slices / None / Ellipsis: model = code (exact, incl. rejection),
+    model's specification = NumPy indexing (contract), code = NumPy (the property itself)"""
+    from scico.numpy.util import indexed_shape
+
+    atoms = [None, Ellipsis, 0, -1, 2, 5, slice(None), slice(0, 2), slice(None, None, -1), slice(1, None, 2), slice(-7, 9, 3)]
+    shapes = [(3,), (3, 4), (2, 3, 4)] if not ctx.thorough else [(1,), (3,), (3, 4), (4, 1), (2, 3, 4)]
+    maxlen = ctx.n(3, 4)
+    n = 0
+    for shape in shapes:
+        x = np.zeros(shape)
+        for L in range(0, maxlen + 1):
+            for idx in itertools.product(atoms, repeat=L):
+                if sum(1 for i in idx if i is Ellipsis) > 1:
+                    continue
+                try:
+                    want = list(x[idx].shape)
+                except IndexError:
+                    want = None
+                try:
+                    got = [int(v) for v in indexed_shape(shape, idx)]
+                except ValueError:
+                    got = None
+                r = model.raw({"op": "indexed_shape", "shape": list(shape), "idx": [_idx_json(i) for i in idx]})
+                if "bad" in r:
+                    raise common.Infra(f"indexed_shape driver: {r}")
+                mod = r["ok"]["shape"] if "ok" in r else None
+                spec = (r["ok"] if "ok" in r else r)["spec"]
+                n += 1
+                if spec != want:
+                    raise common.Infra(f"indexSpec disagrees with NumPy on {shape} {idx}: {spec} vs {want}")
+                nt = None if L == 0 else ("idx", shape, tuple(repr(i) for i in idx))
+                ctx.case({"shape": list(shape), "idx": [repr(i) for i in idx]}, nt, sample_every=5000)
+                if mod != got or got != want:
+                    case = {"shape": list(shape), "idx": [_idx_json(i) for i in idx]}
+
+                    def orc(c, shape=shape, idx=idx, want=want, got=got):
+                        if got != want:
+                            return {"shape": list(shape), "idx": [repr(i) for i in idx], "indexed_shape": got, "numpy_shape": want}
+                        return None
+
+                    ctx.disagree("shape.indexed_shape", case, got, mod, oracle=orc)
+                    return
+    ctx.count("indexed_shape:cases", n)
+    ctx.extra["indexed_shape_grid"] = {"atoms": [repr(a) for a in atoms], "shapes": [list(s) for s in shapes], "max_len": maxlen, "cases": n, "exhaustive": True}
+
+
+def _collapse_part(ctx, model):
+    """collapse_shapes / is_collapsible / is_blockable / shape_to_size and the stacks built from them"""
+    scico = common.setup_scico()
+    import jax.numpy as jnp
+    from scico import linop
+    from scico.numpy.util import shape_to_size
+    from scico.operator._stack import collapse_shapes
+
+    pool = [(2,), (3,), (2, 3), (1,), ((2,), (3,)), ((1, 2), (2,))]
+    rng = ctx.rng
+    combos = list(itertools.product(range(len(pool)), repeat=2)) + list(itertools.product(range(len(pool)), repeat=3))
+    for combo in combos:
+        for allow in (True, False):
+            shapes = tuple(pool[i] for i in combo)
+            try:
+                sh, col = collapse_shapes(shapes, allow)
+                impl = {"collapsed": bool(col), "shape": _tolist(sh)}
+            except ValueError:
+                impl = None
+            except Exception as ex:  # noqa: BLE001
+                impl = "raised " + type(ex).__name__
+            r = model.raw({"op": "collapse", "shapes": [_tolist(s) for s in shapes], "allow": allow})
+            if "bad" in r:
+                raise common.Infra(f"collapse driver: {r}")
+            mod = {"collapsed": r["ok"]["collapsed"], "shape": r["ok"]["shape"]} if "ok" in r else None
+            sizes = (r["ok"] if "ok" in r else r)["sizes"]
+            ctx.case({"shapes": [_tolist(s) for s in shapes], "allow": allow}, ("collapse", combo, allow))
+            ctx.count("collapse:" + ("error" if mod is None else ("stacked" if mod["collapsed"] else "blocked")))
+            if sizes != [int(shape_to_size(s)) for s in shapes]:
+                ctx.disagree("shape.shape_to_size", {"shapes": [_tolist(s) for s in shapes]}, [int(shape_to_size(s)) for s in shapes], sizes)
+                return
+            if impl != mod:
+                kid = "collapse-nested-shapes" if (isinstance(impl, dict) and impl["collapsed"] and any(isinstance(v, list) for v in impl["shape"])) else None
+                ctx.disagree("shape.collapse_shapes", {"shapes": [_tolist(s) for s in shapes], "allow": allow}, impl, mod, known_id=kid)
+                if kid is None or not ctx.is_known(kid):
+                    return
+    # real stacks: declared output shape / plain-vs-block as returned
+    for k in range(ctx.n(12, 60)):
+        nops = int(rng.integers(2, 4))
+        n = int(rng.integers(1, 4))
+        outs = [int(rng.integers(1, 4)) for _ in range(nops)]
+        if rng.random() < 0.5:
+            outs = [outs[0]] * nops
+        ops = [linop.MatrixOperator(jnp.asarray(common.dyadic(rng, (m, n)), dtype=np.float64)) for m in outs]
+        co = bool(rng.random() < 0.7)
+        V = linop.VerticalStack(ops, collapse_output=co)
+        y = V(jnp.ones((n,), dtype=np.float64))
+        r = model.raw({"op": "collapse", "shapes": [[m] for m in outs], "allow": co})
+        want = r["ok"]["shape"]
+        ctx.case({"vstack": outs, "collapse": co}, ("vstack", tuple(outs), co))
+        if _tolist(V.output_shape) != want or _tolist(y.shape) != want:
+            ctx.disagree("shape.vertical_stack", {"outs": outs, "collapse": co}, [_tolist(V.output_shape), _tolist(y.shape)], want)
+            return
+        D = linop.DiagonalStack(ops, collapse_input=co, collapse_output=co)
+        x = snp_stack(D.input_shape)
+        yd = D(x)
+        ri = model.raw({"op": "collapse", "shapes": [[n]] * nops, "allow": co})["ok"]["shape"]
+        if _tolist(D.input_shape) != ri or _tolist(D.output_shape) != want or _tolist(yd.shape) != want:
+            ctx.disagree("shape.diagonal_stack", {"outs": outs, "n": n, "collapse": co},
+                         [_tolist(D.input_shape), _tolist(D.output_shape), _tolist(yd.shape)], [ri, want, want])
+            return
+
+
+def snp_stack(shape):
+    import jax.numpy as jnp
+    import scico.numpy as snp
+
+    if len(shape) and isinstance(shape[0], (tuple, list)):
+        return snp.blockarray([jnp.ones(tuple(s), dtype=np.float64) for s in shape])
+    return jnp.ones(tuple(shape), dtype=np.float64)
+
+
+def _tolist(sh):
+    if isinstance(sh, (tuple, list)):
+        return [_tolist(v) for v in sh]
+    return int(sh)
 
 
 def _part2(ctx):
@@ -264,16 +401,26 @@ def findings(ctx, model):
     except Exception:  # noqa: BLE001
         still = False
     ctx.known_finding("matrix-adj-no-checks", still)
-    # (2j * A).T for a real A: its evaluation calls A.adj on a complex array
-    G_ = linop.LinearOperator(input_shape=(2,), output_shape=(2,), eval_fn=lambda x: 2.0 * x, adj_fn=lambda y: 2.0 * y,
+    # (A + B).H for a real A and a real->complex B: its evaluation calls A.adj on a complex array
+    A_ = linop.LinearOperator(input_shape=(2,), output_shape=(2,), eval_fn=lambda x: 2.0 * x, adj_fn=lambda y: 2.0 * y,
                               input_dtype=np.float64, output_dtype=np.float64)
-    B = (2j * G_).T
+    B_ = linop.LinearOperator(input_shape=(2,), output_shape=(2,), eval_fn=lambda x: 2j * x, adj_fn=lambda y: (-2j * y).real,
+                              input_dtype=np.float64, output_dtype=np.complex128)
+    S_ = (A_ + B_).H
     try:
-        B(jnp.ones((2,), dtype=B.input_dtype))
+        S_(jnp.ones((2,), dtype=S_.input_dtype))
         still2 = False
     except ValueError as ex:
         still2 = "Dtype error" in str(ex)
     ctx.known_finding("adj-dtype-check-mixed", still2)
+    from scico.operator._stack import collapse_shapes
+
+    try:
+        sh, col = collapse_shapes((((2,), (3,)), ((2,), (3,))), True)
+        still3 = bool(col)
+    except ValueError:
+        still3 = False
+    ctx.known_finding("collapse-nested-shapes", still3)
     # sum of operators with different input dtypes: declared complex, returns real
     Dr = linop.Diagonal(jnp.ones((2,), dtype=np.float64))
     Gc = linop.LinearOperator(input_shape=(2,), output_shape=(2,), eval_fn=lambda x: 2.0 * x, adj_fn=lambda y: 2.0 * y,
